@@ -111,10 +111,18 @@ class Reg(Logic):
         self.q.prepare(self.value)
 
     def structureName(self):
-        msg = 'Reg{}'.format(self.q.getWidth())
+        # the name identifies the interface: all the instances with the same name share one module
+        if (self.d.getWidth() == self.q.getWidth()):
+            msg = 'Reg{}'.format(self.q.getWidth())
+        else:
+            msg = 'Reg{}_{}'.format(self.d.getWidth(), self.q.getWidth())
         
-        if not(self.r is None): msg += 'R'
-        if not(self.e is None): msg += 'E'
+        if not(self.r is None): 
+            msg += 'R'
+            if (self.r.getWidth() > 1): msg += '{}'.format(self.r.getWidth())
+        if not(self.e is None): 
+            msg += 'E'
+            if (self.e.getWidth() > 1): msg += '{}'.format(self.e.getWidth())
         if not(self.reset_value == 0): msg += '_v{}'.format(self.reset_value).replace('-', 'm')
         
         return msg
